@@ -152,6 +152,9 @@ class Case:
         return dict(backend=self.be, cls=self.label, op=self.line, impl=self.impl, model=self.model, oracle=self.verdict)
 
 
+_DEC_TOKEN = re.compile(r"(?:^| )d(-?\d+)/(\d+)(?= |$)")
+
+
 def correspond(prop, tier, seed, backends):
     """generate, execute on both sides, compare. returns (cases, hist)"""
     cases = []
@@ -168,6 +171,11 @@ def correspond(prop, tier, seed, backends):
                 if l and not l.startswith("#"):
                     ops.append(("corpus", l))
         ops += prop.gen(w, rng, tier)
+        if be == "dec":
+            # amounts a `Decimal` cannot hold (coefficient outside i128, more than 18 fractional digits) are no
+            # inputs of the implementation: a generator that scales a boundary amount may produce them
+            ops = [(lab, l) for lab, l in ops if all(abs(int(c)) < 2 ** 127 and int(n) <= 18
+                                                    for c, n in _DEC_TOKEN.findall(l))]
         res = pl.run_ops(be, [l for _, l in ops], f"{prop.ID}_{tier}")
         judge = getattr(prop, "judge", None)
         for (lab, _), (line, io, mo, v) in zip(ops, res):
